@@ -196,7 +196,11 @@ pub fn explorer_plan(prop: &str, thorough: bool) -> Option<Plan> {
             p.dims = vec![1, 1, 2, 3, 5, 8, 16, 33, 64, 130];
             p.rounds = (2, 6);
             p.keep_opts = 0.4;
-            p.memory = vec![None];
+            // the capacity clause holds whatever the memory hint: batches of >200 items under a small hint
+            // go through the re-queueing of buckets that overflow in a later batch
+            p.memory = vec![None, None, None, Some(0), Some(3 * 4096)];
+            p.p_bulk = 0.06;
+            p.bulk_max = 500;
             p.max_items = 150;
             p.ops_per_round = (0, 70);
             Plan {
